@@ -11,6 +11,7 @@ import (
 	"os"
 	"path/filepath"
 	"sort"
+	"strconv"
 	"strings"
 	"sync"
 	"sync/atomic"
@@ -108,7 +109,7 @@ var mapSources = []string{
 	`function(doc, meta) { if (doc !== null && typeof doc === "object" && typeof doc.a === "number") emit(doc.a, meta.id); }`,
 	`function(doc, meta) { emit(meta.id, null); }`,
 	`function(doc, meta) { if (meta.xattrs && meta.xattrs._sync !== undefined) emit(meta.id, meta.xattrs._sync); }`,
-	`function(doc, meta) { if (doc !== null && typeof doc === "object" && typeof doc.a === "number") { emit([doc.a, 1], null); emit([doc.a, meta.id], null); } }`,
+	`function(doc, meta) { if (doc !== null && typeof doc === "object" && typeof doc.a === "number") { emit([doc.a, 1], null); emit([doc.a, meta.id], null); emit([doc.a, 1], "dup"); } }`,
 	`function(doc, meta) { if (doc !== null && typeof doc === "object" && typeof doc.s === "string") emit(doc.s, null); }`,
 }
 
@@ -749,6 +750,9 @@ func queryTemplate(name, arg string) (string, Term, map[string]any) {
 		return "SELECT json_quote(id) AS id FROM $_keyspace WHERE xattrs->>'$._sync.rev' = $v ORDER BY id", C("QXattrRev", S(arg)), map[string]any{"v": arg}
 	case "QSync":
 		return "SELECT json_quote(id) AS id, xattrs->'$._sync' AS s FROM $_keyspace ORDER BY id", C("QSync"), nil
+	case "QBodyAEq":
+		n, _ := strconv.ParseUint(arg, 10, 64)
+		return "SELECT json_quote(id) AS id FROM $_keyspace WHERE CASE WHEN json_valid(body) THEN body->>'$.a' END = $n ORDER BY id", C("QBodyAEq", N(n)), map[string]any{"n": n}
 	case "QSyncFirst":
 		return "SELECT xattrs->'$._sync' AS s, json_quote(id) AS id FROM $_keyspace ORDER BY id", C("QSyncFirst"), nil
 	default:
